@@ -95,6 +95,11 @@ def gen_def(rng, max_proc=6, max_flows=12, max_stocks=3, hostile_names=False, n_
         override = None
         if (src, dst) in seen or rng.random() < 0.15:
             override = f"flow number {len(d.flows)} x"
+            if hostile_names and not getattr(d, "_bare_name_used", False) and rng.random() < 0.3:
+                # ONE name per system without any ASCII letter or digit (an arrow, a percent sign, a name in another script): whatever
+                # file name it is given, the array is exported like the others
+                override = str(rng.choice(["=>", "->", "%", "\u2192", "\u043f\u043e\u0442\u043e\u043a", "\u6d41\u91cf"]))
+                d._bare_name_used = True
         seen.add((src, dst))
         d.flows.append(dict(src=src, dst=dst, letters=rand_letters(), override=override))
     ns = int(rng.integers(0, max_stocks + 1))
